@@ -1,4 +1,8 @@
 import ColoVerif.Proofs.DetPlaceFrame
+import ColoVerif.Proofs.DetPlaceInit
+import ColoVerif.Proofs.DetPlaceInitOk
+import ColoVerif.Proofs.DetPlaceLegal
+import ColoVerif.Model.LegacyLegalize
 import ColoVerif.Model.LegacyDetPlace
 /-!
 # C02 — detailed placement keeps the placement legal at every exposed state
@@ -14,31 +18,51 @@ every constructed instance (`init ok`).
 namespace ColoVerif.C02
 open ColoVerif ColoVerif.DetPlace ColoVerif.DetPlace.State
 
-/-- Clause "the state built from a circuit is consistent", proved part: whatever
-`fromIspdCircuit` returns passed the model of the real `check()` (the constructor ends with it).
-Missing for the full statement below: that the links written by the constructor are symmetric and
-y/width/orientation are as `Inv` demands for every circuit of the domain (the driver evaluates the
-decidable `Inv` on every explored instance instead). -/
-theorem inv_init_partial (c : Circuit) (s : State) (e : fromIspdCircuit c = .ok s) : s.check = true := by
-  unfold fromIspdCircuit at e
-  split at e
-  · cases e
-  · unfold construct at e
-    simp only at e
-    split at e
-    · cases e
-    · split at e
-      · cases e
-      · split at e
-        · rename_i hc; injection e with e; exact e ▸ hc
-        · cases e
+/-- **Construction (full).**  For every circuit whose movable cells have a positive placed width and
+a valid orientation: whatever `DetailedPlacement::fromIspdCircuit` returns satisfies `Inv` — the
+links written by the constructor are symmetric, first/last cells are right, every placed cell is
+inside its row segment at the row's y, in x order with its neighbours, in an allowed row with the
+orientation the row demands — every optimised cell is placed, and the real `check()` passes.
+(Proofs/DetPlaceInit.lean: `linkRow` establishes a `Chain` per row; the per-row cell lists of
+`assignCells` are duplicate-free and disjoint, so later rows do not disturb earlier ones; geometry
+from `locate`; the orientation facts are the ones the final `check()` tests along `rowCells`.) -/
+theorem inv_init (c : Circuit) (s : State)
+    (hd : ∀ cl ∈ c.cells, ¬ cl.fixed → 0 < cl.placedWidth ∧ cl.orient ≠ Orient.INVALID)
+    (e : fromIspdCircuit c = .ok s) : Inv s ∧ s.allPlaced = true ∧ s.check = true := by
+  obtain ⟨h1, h2⟩ := fromIspdCircuit_inv hd e
+  obtain ⟨_, _, _, B⟩ := fromIspdCircuit_built e
+  exact ⟨h1, h2, B.check⟩
 
-/-- full strength of the construction clause (not proved; `Dom` = movable cells have positive
-placed width and a valid orientation) -/
-def inv_init_full_statement : Prop :=
-  ∀ (c : Circuit) (s : State),
-    (∀ cl ∈ c.cells, ¬ cl.fixed → 0 < cl.placedWidth ∧ cl.orient ≠ Orient.INVALID) →
-    fromIspdCircuit c = .ok s → Inv s ∧ s.allPlaced = true
+/-- **"It never fails on a circuit that legalization alone accepts", constructor part (full).**
+`Legalize.DomL` / `Legalize.LegalL` are C01's domain and legality (Properties/C01.lean ties
+`C01.Dom = DomL`, `C01.Legal = LegalL` by `rfl`; `C01.legalize_legal` proves `LegalL` of everything
+legalization returns).  `OrientLegal` is the orientation side of legality, which C01's `Legal` does
+not contain (C04): a movable one-row cell lying in a row has the orientation this row demands for
+its polarity.  Under these, `DetailedPlacement::fromIspdCircuit` — which looks every cell up in the
+sorted free row segments, rejects overlaps and runs `check()` — returns normally.
+(Proofs/DetPlaceRows.lean, DetPlaceInitOk.lean: a cell inside a free segment of `computeRows()` that
+misses the multi-row cells lies in a free segment of `computeRows(multi-row cells)`; `upper_bound` on
+the sorted disjoint segments finds it; cells sorted by x in one segment do not overlap because their
+placements are disjoint; `check()` follows from the linking and `OrientLegal`.) -/
+theorem fromCircuit_ok_of_legal (c : Circuit) (hd : Legalize.DomL c) (hl : Legalize.LegalL c) (ho : OrientLegal c) :
+    ∃ s, fromIspdCircuit c = .ok s := fromIspdCircuit_ok c hd hl ho
+
+/-- … and the state it returns satisfies `Inv` with every optimised cell placed (`inv_init`), when no
+movable cell carries the INVALID orientation -/
+theorem init_of_legal (c : Circuit) (hd : Legalize.DomL c) (hl : Legalize.LegalL c) (ho : OrientLegal c)
+    (hv : ∀ cl ∈ c.cells, ¬ cl.fixed → cl.orient ≠ Orient.INVALID) :
+    ∃ s, fromIspdCircuit c = .ok s ∧ Inv s ∧ s.allPlaced = true := by
+  obtain ⟨s, e⟩ := fromIspdCircuit_ok c hd hl ho
+  obtain ⟨h1, h2, _⟩ := inv_init c s (fun cl hcl hf => ⟨(hd.2.1 cl hcl (by simpa using hf)).1, hv cl hcl hf⟩) e
+  exact ⟨s, e, h1, h2⟩
+
+/-- … hence after a successful legalization (`legalizeWith` of C01's model, any rounding of the
+ordering key) whose result is again in the domain and has row-conform orientations, the constructor
+of detailed placement does not fail. -/
+theorem fromCircuit_ok_after_legalize (rnd : Rat → Rat) (p : Legalize.Params) (c c' : Circuit) (hd : Legalize.DomL c)
+    (h : Legalize.legalizeWith rnd p c = .ok c') (hd' : Legalize.DomL c') (ho : OrientLegal c') :
+    ∃ s, fromIspdCircuit c' = .ok s :=
+  fromIspdCircuit_ok c' hd' (Legalize.legalizeWith_legal rnd p c c' hd h) ho
 
 /-- `unplace` of a placed cell keeps the invariant (pointer surgery included) -/
 theorem inv_unplace {s : State} (h : Inv s) {c : Int} (hc : s.validCell c) (hp : s.row c ≠ -1) :
@@ -78,19 +102,25 @@ theorem ignored_frame {s t : State} {ops : List Op} (e : s.run ops = .ok t) :
   have := run_frame e
   exact ⟨this.1, fun d hd => this.2 d (by simpa [isIgnored] using hd)⟩
 
-/-- Legality read off the invariant, proved part: a placed cell is an optimised cell of positive
+/-- Legality read off the invariant, cell by cell: a placed cell is an optimised cell of positive
 width, sits at its row's y in an allowed row with a valid orientation, does not overlap its
-predecessor or successor and the first / last cell of a row is inside the row. -/
-theorem inv_legal_partial {s : State} (h : Inv s) {c : Int} (hc : s.validCell c) (hp : s.row c ≠ -1) :
+predecessor or successor or *any other cell of its row* (transitivity of the order along the links,
+`row_order`) and lies between the ends of its row segment (`row_bounds`, also for inner cells). -/
+theorem inv_legal_cells {s : State} (h : Inv s) {c : Int} (hc : s.validCell c) (hp : s.row c ≠ -1) :
     s.validRow (s.row c) ∧ 0 < s.width c ∧ s.y c = s.rowY (s.row c) ∧ s.orient c ≠ Orient.INVALID ∧
-    s.boundaryBefore c ≤ s.x c ∧ s.x c + s.width c ≤ s.boundaryAfter c := by
+    s.boundaryBefore c ≤ s.x c ∧ s.x c + s.width c ≤ s.boundaryAfter c ∧
+    s.rowMinX (s.row c) ≤ s.x c ∧ s.x c + s.width c ≤ s.rowMaxX (s.row c) ∧
+    ∀ d, s.validCell d → d ≠ c → s.row d = s.row c →
+      s.x c + s.width c ≤ s.x d ∨ s.x d + s.width d ≤ s.x c := by
   have L := h.link hc
   have C := h.cell hc
   unfold LinkOk at L
   unfold CellOk at C
   have C2 := C.2 hp
   have C1 := C.1 C2.1
-  refine ⟨h.placed_row hc hp, C1.2, C2.2.2.2, C1.1, ?_, ?_⟩
+  have B := row_bounds h hc hp
+  refine ⟨h.placed_row hc hp, C1.2, C2.2.2.2, C1.1, ?_, ?_, B.1, B.2,
+    fun d hd hne hr => row_order h hc hd hp hr (Ne.symm hne)⟩
   · unfold boundaryBefore
     split
     · rename_i h1; exact ((L.2.2 hp).2.1 h1).2
@@ -100,14 +130,36 @@ theorem inv_legal_partial {s : State} (h : Inv s) {c : Int} (hc : s.validCell c)
     · rename_i h1; exact ((L.2.2 hp).2.2.2 h1).2
     · rename_i h1; exact ((L.2.2 hp).2.2.1 h1).2.2.1
 
-/-- full strength of the legality clause (not proved: needs the transitive order along the links —
-any two cells of a row, not only neighbours — and the row ends for inner cells; supported by the
-direct oracle `vc::checkLegal` in every callback and by `inv_legal_partial`) -/
-def inv_legal_full_statement : Prop :=
-  ∀ s : State, Inv s → s.allPlaced = true →
-    ∀ c d : Int, s.validCell c → s.validCell d → c ≠ d → s.row c ≠ -1 → s.row d = s.row c →
-      (s.x c + s.width c ≤ s.x d ∨ s.x d + s.width d ≤ s.x c) ∧
-      s.rowMinX (s.row c) ≤ s.x c ∧ s.x c + s.width c ≤ s.rowMaxX (s.row c)
+/-- **Legality of every exposed state (full).**  Let `c` be a circuit of C01's domain, legal in C01's
+sense (what `C01.legalize_legal` proves of legalization's result), on which the constructor returned
+`s0`, and let `s` be reached from `s0` by *any* history of the optimiser's moves (swap / insert /
+checked shift / reorder write-back with arbitrary arguments) that the model accepts.  Then `s`
+satisfies `Inv`, every optimised cell is placed, and the circuit that `exportPlacement` writes — what a
+Detailed-step callback and the caller see — is legal in C01's sense: every row-high strip of every
+movable cell inside one free segment of `computeRows`, no two movable cells intersecting; the cells
+that are not optimised (multi-row cells, macros) sit exactly where the input has them.
+(Proofs/DetPlaceLegal.lean: order along the links is transitive ⇒ cells of one row are apart and
+inside the row's segment; segments of different rows are disjoint; the unoptimised movable cells were
+obstacles when the segments were computed; the segments w.r.t. more obstacles lie inside the segments
+of `computeRows()`; turn status, hence placed sizes, never change.) -/
+theorem inv_legal (c : Circuit) (hd : Legalize.DomL c) (hl : Legalize.LegalL c)
+    (hv : ∀ cl ∈ c.cells, ¬ cl.fixed → cl.orient ≠ Orient.INVALID)
+    (s0 s : State) (e0 : fromIspdCircuit c = .ok s0) (ops : List Op) (e : s0.run ops = .ok s) :
+    Inv s ∧ s.allPlaced = true ∧ Legalize.LegalL (exportPlacement s c) ∧
+    (∀ (i : Nat) (cl : Cell), c.cells[i]? = some cl → cl.fixed = false → cl.placedHeight ≠ (Circuit.rowHeight c).getD 0 →
+      (exportPlacement s c).cells[i]? = some cl) := by
+  obtain ⟨i0, a0, _⟩ := inv_init c s0 (fun cl hcl hf => ⟨(hd.2.1 cl hcl (by simpa using hf)).1, hv cl hcl hf⟩) e0
+  have hI := run_inv i0 e
+  have hap := (allPlaced_iff s).2 (run_allPlaced ((allPlaced_iff s0).1 a0) e)
+  obtain ⟨H, hrh, S⟩ := stateOf_of_run hd e0 e
+  refine ⟨hI, hap, export_legal hd hl hrh S hI hap, ?_⟩
+  intro i cl hg hf hh
+  rw [hrh] at hh
+  obtain ⟨a1, a2, a3⟩ := S.ign i cl hg (ispdWidth_multi hh)
+  rw [export_get, hg]
+  simp only [Option.map_some, Option.some.injEq]
+  unfold newCell
+  rw [a1, a2, a3, if_neg (by simp [hf])]
 
 /-- the arithmetic fact behind `positionOnInsert` / `positionsOnSwap`: the C++ midpoint
 (truncating division) of a site that is wide enough lies inside the site -/
@@ -143,9 +195,35 @@ def tiny : Circuit :=
 def tinyOps : List Op :=
   [.swap 0 1, .insert 2 0 0, .shift [(2, 6)], .reorder [1, 0] [⟨0, -1, [(0, 0), (1, 2)]⟩]]
 
+-- non-vacuity of `inv_init`: `tiny` satisfies its hypothesis and the constructor accepts it
+example : (∀ cl ∈ tiny.cells, ¬ cl.fixed → 0 < cl.placedWidth ∧ cl.orient ≠ Orient.INVALID) ∧
+    isOk (fromIspdCircuit tiny) = true := by decide
+
 example : (match fromIspdCircuit tiny with
            | .ok s => decide (Inv s) && s.isIgnored 3 &&
                       (match s.run tinyOps with | .ok t => decide (Inv t) | .error _ => false)
            | .error _ => false) = true := by decide
+
+/-! non-vacuity of `inv_legal`: its hypotheses hold for the legalized `tiny` (legality by
+`legalizeWith_legal`, see below) and the history `tinyOps` is accepted from the constructor's state of `tiny` -/
+
+/-! non-vacuity of `fromCircuit_ok_of_legal` / `fromCircuit_ok_after_legalize`: legalization of `tiny`
+(one two-row cell, three one-row cells, one of them with polarity SAME) succeeds; its result is in
+the domain, legal (`legalizeWith_legal`), orientation-conform, and the constructor accepts it -/
+instance (c : Circuit) : Decidable (Legalize.DomL c) := inferInstanceAs (Decidable (_ ∧ _ ∧ _ ∧ _))
+
+example : Legalize.DomL tiny := by decide
+
+example : (match Legalize.legalize LegacyLegalize.defaultParams tiny with
+           | .ok c' => decide (Legalize.DomL c') && decide (OrientLegal c') &&
+                       c'.cells.all (fun cl => cl.fixed || cl.orient != Orient.INVALID) &&
+                       (match fromIspdCircuit c' with
+                        | .ok s0 => isOk (s0.run tinyOps)   -- a history of all four kinds of moves is accepted
+                        | .error _ => false)
+           | .error _ => false) = true := by decide +kernel
+
+-- … and what legalization returned is `LegalL` (C01), so `inv_legal` applies to it with `tinyOps`
+example (c' : Circuit) (h : Legalize.legalize LegacyLegalize.defaultParams tiny = .ok c') : Legalize.LegalL c' :=
+  Legalize.legalizeWith_legal _ _ tiny c' (by decide) h
 
 end ColoVerif.C02
